@@ -32,6 +32,14 @@ type ResumeCase struct {
 	At int `json:"at"`
 }
 
+func seqOf(ev []event) string {
+	b := make([]byte, len(ev))
+	for i, e := range ev {
+		b[i] = e.kind
+	}
+	return string(b)
+}
+
 func stateDigest(s *interpreter.State) uint64 {
 	return digestState(s.DataStack, s.AltStack, append(append([][]byte{}, s.ElseStack...), s.SavedFirstStack...), s.CondStack, s.ScriptIdx, s.OpcodeIdx*1000003+s.LastCodeSeparatorIdx*10007+s.NumOps)
 }
@@ -49,10 +57,23 @@ func checkResume(ctx *pbt.Ctx, c ResumeCase) error {
 		ctx.Discard("over_budget")
 		return nil
 	}
-	k := &libexec.Keeper{}
-	full := libexec.RunModel(model, idx, c.Lock, c.Ctx.Amount, flags, k)
+	whole := &tracer{}
+	full := libexec.RunModel(model, idx, c.Lock, c.Ctx.Amount, flags, whole)
 	if full.Panic != "" {
 		return fmt.Errorf("panic: %s", full.Panic)
+	}
+	if whole.over {
+		ctx.Discard("snapshot_volume_over_budget")
+		return nil
+	}
+	var k struct {
+		States []*interpreter.State
+		at     []int // index of the BeforeStep event in whole.events
+	}
+	for i, e := range whole.events {
+		if e.kind == 'S' {
+			k.States, k.at = append(k.States, whole.kept[i]), append(k.at, i)
+		}
 	}
 	if len(k.States) == 0 {
 		ctx.Discard("no step reached")
@@ -115,6 +136,24 @@ func checkResume(ctx *pbt.Ctx, c ResumeCase) error {
 		if a.kind != b.kind || !eqStacks(a.stack, b.stack) || !eqStacks(a.alt, b.alt) || !eqStacks(a.els, b.els) || fmt.Sprint(a.cond) != fmt.Sprint(b.cond) || a.sidx != b.sidx || a.oidx != b.oidx {
 			return fmt.Errorf("resumed execution, event %d (%c): snapshot differs after scribbling: stack %x vs %x, alt %x vs %x, cond %v vs %v, pc %d:%d vs %d:%d; %s",
 				i, a.kind, a.stack, b.stack, a.alt, b.alt, a.cond, b.cond, a.sidx, a.oidx, b.sidx, b.oidx, id)
+		}
+	}
+	// (tenth round) from its first step on, the resumed execution reports what the uninterrupted one
+	// reported from that step on: the same callbacks in the same order with the same snapshots
+	rj := 0
+	for rj < len(rec.events) && rec.events[rj].kind != 'S' {
+		rj++
+	}
+	rest := whole.events[k.at[at]:]
+	got := rec.events[rj:]
+	if len(rest) != len(got) {
+		return fmt.Errorf("from the resumption point on the uninterrupted execution made %d callbacks (%q), the resumed one %d (%q); %s", len(rest), seqOf(rest), len(got), seqOf(got), id)
+	}
+	for i := range rest {
+		a, b := rest[i], got[i]
+		if a.kind != b.kind || !eqStacks(a.stack, b.stack) || !eqStacks(a.alt, b.alt) || !eqStacks(a.els, b.els) || fmt.Sprint(a.cond) != fmt.Sprint(b.cond) || a.sidx != b.sidx || a.oidx != b.oidx || a.lsep != b.lsep || a.nops != b.nops {
+			return fmt.Errorf("callback %d after the resumption point: uninterrupted %c {stack %x alt %x cond %v pc %d:%d sep %d ops %d}, resumed %c {stack %x alt %x cond %v pc %d:%d sep %d ops %d}; sequences %q / %q; %s",
+				i, a.kind, a.stack, a.alt, a.cond, a.sidx, a.oidx, a.lsep, a.nops, b.kind, b.stack, b.alt, b.cond, b.sidx, b.oidx, b.lsep, b.nops, seqOf(rest), seqOf(got), id)
 		}
 	}
 	if rec.pcBad != "" {
